@@ -139,7 +139,7 @@ package node
 // C05: a write vetoed by a pre-constraint (or failing one) issues no Field request, and the veto is what is returned
 //@ func (sel *Selection) set(r *FieldRequest, hnd *ValueHandle) error
 //@   mode int
-//@   property C05
+//@   property C05 C12
 //@   requires sel != nil && sel.Constraints != nil && sel.Node != nil && r != nil && hnd != nil
 //@   assigns open, failed, nodeWrites, writesAfterFail, fieldWrites, fieldPostChecks, nonNavChecks, sel.Constraints.compiled, *r, hnd.Val
 //@   check (!proceed || constraintErr != nil) ==> fieldWrites == old(fieldWrites) && result == constraintErr
@@ -375,7 +375,7 @@ package node
 // post-constraints (with-defaults=trim lives there), whatever the node answered
 //@ func (sel *Selection) get(r *FieldRequest, hnd *ValueHandle, useDefault bool) error
 //@   mode int
-//@   property C04 C07
+//@   property C04 C07 C12
 //@   requires sel != nil && sel.Constraints != nil && sel.Node != nil && r != nil && hnd != nil && r.Meta != nil && !r.Write
 //@   assigns open, failed, nodeWrites, writesAfterFail, fieldWrites, fieldPostChecks, nonNavChecks, sel.Constraints.compiled, *r, hnd.Val
 //@   check (!proceed || constraintErr != nil) ==> result == constraintErr && fieldPostChecks == old(fieldPostChecks) && fieldWrites == old(fieldWrites)
